@@ -1219,6 +1219,48 @@ pub fn shrink(sc: &Scenario) -> (Scenario, u64) {
 // Model self-check: every reference model against a fault-free real run, both backends
 // ---------------------------------------------------------------------------------------------
 
+/// Fault-free validation of the reference interpreter of generated voices: `n` single-voice
+/// programs on both backends. Returns (runs, mismatching programs).
+pub fn randcheck(n: u64, seed: u64) -> (u64, Vec<String>) {
+    use crate::voices::gen_voice;
+    let mut rng = Rng::new(seed).sub("randcheck");
+    let mut bad = vec![];
+    let mut runs = 0;
+    for i in 0..n {
+        let n_in = if i % 3 == 0 { 2 } else { 0 };
+        let md = [4u32, 16, 64][(i % 3) as usize];
+        let mut v = gen_voice(&mut rng, 0, crate::voices::Kind::Rand, n_in, md);
+        v.wrap = (i % 4 == 3) as u32;
+        let prog = Prog { sites: vec![v], chans: vec![vec![0]], n_in, cosmetic: (i % 8) as u32, fault: None, edit: Edit::Initial };
+        for backend in [Backend::Vm, Backend::WasmP3] {
+            let sc = Scenario {
+                prop: "C07".into(),
+                seed: 0,
+                backend,
+                versions: vec![Version::Gen(prog.clone())],
+                saves: vec![],
+                blocks: vec![5],
+                total: 120,
+                input_seed: 7 + i,
+                retire: RetireMode::Present,
+                with_scheduler: false,
+                sample_rate: 48000,
+                self_init_0: false,
+                with_sampler: false,
+            };
+            if std::env::var("VERIF_TRACE").is_ok() {
+                eprintln!("--- randcheck {i} {}\n{}", backend.name(), prog.render());
+            }
+            let r = run(&sc);
+            runs += 1;
+            if !matches!(r.outcome, Some(Outcome::Pass)) {
+                bad.push(format!("{} {:?}\n{}", backend.name(), r.outcome, prog.render()));
+            }
+        }
+    }
+    (runs, bad)
+}
+
 pub fn selfcheck() -> (bool, Vec<String>) {
     use crate::progen::Fault;
     use crate::voices::{ALL_KINDS, gen_voice};
@@ -1238,6 +1280,9 @@ pub fn selfcheck() -> (bool, Vec<String>) {
                 fault: None,
                 edit: Edit::Initial,
             };
+            if std::env::var("VERIF_TRACE").is_ok() {
+                eprintln!("--- selfcheck {kind:?} rep {rep}\n{}", prog.render());
+            }
             for backend in [Backend::Vm, Backend::WasmP3] {
                 let sc = Scenario {
                     prop: "C07".into(),
